@@ -23,6 +23,7 @@ import (
 	"fmt"
 	"io"
 	"log"
+	"math/rand"
 	"reflect"
 	"sort"
 	"time"
@@ -469,9 +470,17 @@ func (k *KVStore) Range(f func(hkey uint64, e storage.Entry) bool) {
 // the number of elements in the map even if f returns false after a constant
 // number of calls.
 func (k *KVStore) RangeHKey(f func(hkey uint64) bool) {
-	// Scan available tables by starting the last added table.
-	for i := len(k.tables) - 1; i >= 0; i-- {
-		t := k.tables[i]
+	n := len(k.tables)
+	if n == 0 {
+		return
+	}
+	// Start with a randomly selected table. The eviction workers stop the iteration
+	// after a small number of keys. If the iteration always starts with the last added
+	// table, the keys in the older tables are never visited while the last table has
+	// enough keys to fill the sample.
+	start := rand.Intn(n)
+	for i := 0; i < n; i++ {
+		t := k.tables[(start+n-i)%n]
 		t.RangeHKey(func(hkey uint64) bool {
 			return f(hkey)
 		})
